@@ -2,7 +2,9 @@
 """C01 - the service decoder survives every input: no crash, abort, hang, bad access or leak.
 
 Lean side: Props/C01.lean collects the safety obligations proved on the component models (index bounds, cursor
-invariants, termination of the page walk, reference counting) - see DESIGN.md section 7 "C01".
+invariants, termination of the page walk, reference counting) - see DESIGN.md section 7 "C01"; Props/C01Enh.lean adds
+the Level 2.5 / TOP obligations (add_modulo range, reads within cache_page_size, object page references balanced) on
+facts regenerated from the source by translate/gen_c01.py.
 Implementation side: the whole decoder behind its public API, built with ASan+UBSan (and a second build with
 -fsanitize=bounds and an allow-list for the flat walks over two-dimensional arrays), driven by structured Teletext /
 caption / XDS / ITV / VPS / WSS streams interleaved with fetch, classify, title, link resolution, export, rendering and
@@ -42,17 +44,24 @@ def _addr_only(report):
 class C01(verif.Spec):
     prop = "C01"
     comp = "dec"
-    lean_modules = ["ZvbiModel.Props.C01", "ZvbiModel.Props.C01Ttx"]
+    lean_modules = ["ZvbiModel.Props.C01", "ZvbiModel.Props.C01Ttx", "ZvbiModel.Props.C01Enh"]
     harness = "dec_harness"
     timeout_per_case = 20.0
-    partial_note = ("proved: the enumerated safety obligations on the component models (see Props/C01.lean); "
+    partial_note = ("proved: the enumerated safety obligations on the component models (Props/C01.lean recursion bound, "
+                    "Props/C01Ttx.lean index bounds of the packet decoder, Props/C01Enh.lean: add_modulo / TOP navigation page "
+                    "numbers in range, vbi_convert_page and the page formatter read inside cache_page_size, every cache page "
+                    "reference taken by object invocation released on every path, POP pointer / triplet index bounds); "
                     "sanitizer-exercised only: exporters (html, vtx, png, xpm, ppm), ure.c regex engine, conv.c/iconv, "
-                    "Level 2.5/3.5 attribute merging in teletext.c enhance(), trigger.c parsing, TOP/MIP/MOT parsers beyond "
-                    "their index bounds")
+                    "Level 2.5/3.5 attribute merging in teletext.c enhance() (enhance_flush, DRCS look-up references, F6), "
+                    "top_label / top_index cell writes, trigger.c parsing, MIP/MPT parsers beyond their index bounds")
     assumptions = ["malloc does not fail", "callers pass buffers / canvases of the documented size"]
     trusted_base = ["harness/dec_harness.c + lean/Driver/Dec.lean (every well-formed op must return `ok`)",
                     "ASan/UBSan/LSan of gcc 12 as the judge of memory errors in the exercised runs",
-                    "allow-list of flat 2-D array walks in the -fsanitize=bounds build (checks/C01.py BOUNDS_ALLOW)"]
+                    "allow-list of flat 2-D array walks and of address-only row pointers in the -fsanitize=bounds build "
+                    "(checks/C01.py BOUNDS_ALLOW, ADDR_ONLY)",
+                    "translate/gen_enh.py, translate/gen_c01.py (regex extraction of guards / release paths / expressions from "
+                    "the C text, C probe for the layout; they stop with an error when the text is not recognised)",
+                    "int is 32-bit two's complement (add_modulo is evaluated on BitVec 32)"]
     open_statements = ["whole-library memory safety for all inputs (only the enumerated obligations are theorems)"]
 
     def gen_cases(self, rng, tier):
